@@ -11,6 +11,7 @@ import (
 	_ "verifharness/mon/c11"
 	_ "verifharness/mon/c14"
 	_ "verifharness/mon/c15"
+	_ "verifharness/mon/c16"
 	_ "verifharness/mon/c17"
 	_ "verifharness/mon/c18"
 	_ "verifharness/mon/c20"
